@@ -58,7 +58,16 @@ def make_pool(rng, lens):
     b = msg_of_len(rng, l1, 0)
     if l1 > 0 and a == b:
         b = bytes([a[0] ^ 1]) + a[1:]
-    return [a, b, msg_of_len(rng, l2), msg_of_len(rng, lens[rng.randrange(len(lens))])]
+    c = msg_of_len(rng, l2)
+    d = msg_of_len(rng, lens[rng.randrange(len(lens))])
+    # related messages: sometimes one message is a prefix / an extension of another (to a length
+    # of the same class list), which is what resumable or prefix-keyed caches need to go wrong
+    v = rng.random()
+    if v < 0.3 and l2 > l1:
+        c = a + c[l1:]
+    elif v < 0.45 and len(d) < l1:
+        d = a[:len(d)]
+    return [a, b, c, d]
 
 
 # ---------------------------------------------------------------------------------------------
@@ -158,6 +167,18 @@ def hash_ops(has_bitlen=True, has_salt=False, update=True):
     return ops
 
 
+def _md6_ops():
+    ops = hash_ops(update=False)
+
+    def internals(x, c):
+        if x.rng.random() < 0.5:
+            x.call(c, "SEQ", [B(x.msg())], cls=HIST, tag="internals")
+        else:
+            x.call(c, "PAR", [1, B(x.msg())], cls=HIST, tag="internals")
+    ops["internals"] = (HIST, internals)
+    return ops
+
+
 def blake2_ops():
     ops = hash_ops(has_bitlen=False)
     ops.pop("initstate")
@@ -203,6 +224,14 @@ def blake2_ops():
         x.call(c, "__call__", [B(x.msg())], {"outlen": x.rng.choice([99, 0, 65, 200])}, cls=BAD,
                tag="bad_outlen")
     ops["bad_outlen"] = (BAD, bad_outlen)
+
+    def internals(x, c):
+        if x.rng.random() < 0.5:
+            x.call(c, "treeinit", [], {"fanout": x.rng.randint(0, 3), "depth": x.rng.randint(1, 3)}, cls=HIST, tag="internals")
+        else:
+            l = x.info["w"] * 2
+            x.call(c, "paramblock", [B(rbytes(x.rng, l)), B(rbytes(x.rng, l))], cls=HIST, tag="internals")
+    ops["internals"] = (HIST, internals)
 
     def bad_salt(x, c):
         kw = {x.rng.choice(["salt", "pers"]): B(rbytes(x.rng, x.rng.choice([1, 3, x.info["w"] * 2 + 1, 40])))}
@@ -943,7 +972,7 @@ KINDS = {
     "SHA2": (5, mk_sha2, _with_resume(hash_ops(), "iter_part")),
     "MD4": (3, mk_md4, _with_resume(hash_ops(), "iter_part")),
     "MD5": (3, mk_md5, _with_resume(hash_ops(), "iter_part")),
-    "MD6": (1, mk_md6, hash_ops(update=False)),
+    "MD6": (1, mk_md6, _md6_ops()),
     "Blake": (4, mk_blake, _with_resume(hash_ops(has_salt=True), "iter_part")),
     "blake_singleton": (3, mk_blake_s, _with_resume(hash_ops(has_salt=True), "iter_part")),
     "Blake2": (4, mk_blake2, blake2_ops()),
